@@ -253,6 +253,34 @@ pub(crate) fn invalid_type_number(num: &ParserNumber, exp: &dyn Expected) -> Err
     }
 }
 
+/// The index in `json` of the byte that ended up at `index` of `String::from_utf8_lossy(json)`
+/// (which writes the 3 bytes of U+FFFD for every invalid sequence).
+fn lossy_index_to_input(json: &[u8], index: usize) -> usize {
+    let (mut input, mut repaired) = (0usize, 0usize);
+    while input < json.len() {
+        let (valid, invalid) = match std::str::from_utf8(&json[input..]) {
+            Ok(s) => (s.len(), 0),
+            Err(e) => (
+                e.valid_up_to(),
+                e.error_len().unwrap_or(json.len() - input - e.valid_up_to()),
+            ),
+        };
+        if index <= repaired + valid {
+            return input + (index - repaired);
+        }
+        input += valid;
+        repaired += valid;
+        if invalid != 0 {
+            if index < repaired + 3 {
+                return input;
+            }
+            input += invalid;
+            repaired += 3;
+        }
+    }
+    json.len()
+}
+
 macro_rules! impl_deserialize_number {
     ($method:ident) => {
         fn $method<V>(self, visitor: V) -> Result<V::Value>
@@ -379,13 +407,21 @@ impl<'de, R: Reader<'de>> Deserializer<R> {
                 // repr the invalid utf8, not need to care about the invalid UTF8 char in non-string
                 // parts, it will cause errors when parsing.
                 let repaired = String::from_utf8_lossy(json);
-                let n = val.parse_with_padding(repaired.as_bytes(), cfg)?;
+                // positions in the repaired copy (every invalid sequence became 3 bytes) are
+                // mapped back to the input: error positions and the number of consumed bytes
+                let n = match val.parse_with_padding(repaired.as_bytes(), cfg) {
+                    Ok(n) => n,
+                    Err(err) => {
+                        let index = lossy_index_to_input(json, err.offset());
+                        return Err(Error::syntax(err.error_code(), json, index));
+                    }
+                };
                 if n > repaired.len() {
                     // the parser only stopped inside the padding: the document is truncated
                     self.parser.read.set_index(json.len());
                     return Err(Error::syntax(EofWhileParsing, json, json.len()));
                 }
-                n
+                lossy_index_to_input(json, n)
             } else {
                 let n = val.parse_with_padding(json, cfg)?;
                 if n > json.len() {
